@@ -4,6 +4,7 @@ import (
 	"context"
 	"errors"
 	"fmt"
+	"os"
 	"math/rand"
 	"sort"
 	"strings"
@@ -21,7 +22,7 @@ func init() {
 	fw.Register(&fw.Property{
 		ID:    "C11",
 		Level: "fault_enumeration",
-		Rule: "ENUMERATED single cancellation points x ordinal: a writer log of 6-80 entries (long ones exceed the 32 fetch slots) is requested by a replica through Sync; the request's context is cancelled at a chosen point: {already cancelled, repl.before-slot (k-th arrival, also while all slots are held by blocked fetches), repl.after-dequeue, repl.before-fetch, mid-fetch (remote block fetch held by the gate, then cancel), repl.after-fetch, repl.before-done, merge.after-join, deadline expiry, injected fetch error at the k-th remote fetch}; 1-3 aborted requests in sequence or overlapping (pairs sampled), then a final uncancelled request for the same or newer heads. " +
+		Rule: "ENUMERATED single cancellation points x ordinal: a writer log of 6-80 entries (long ones exceed the 32 fetch slots) is requested by a replica through Sync; the request's context is cancelled at a chosen point: {already cancelled, repl.before-slot (k-th arrival, also while all slots are held by blocked fetches), repl.after-dequeue, repl.before-fetch, mid-fetch (remote block fetch held by the gate, then cancel), repl.after-fetch, repl.before-done, merge.after-join, deadline expiry, injected fetch error at the k-th remote fetch}; 1-3 aborted requests in sequence or overlapping (pairs sampled), and sequences of 40 aborted requests at one point (more than the 32 fetch slots), then a final uncancelled request for the same or newer heads. " +
 			"distinct = (log length, point, ordinal, number and overlap of aborted requests, newer-heads flag, store type); non-trivial = the cancellation point was actually reached with the request still running (arrivals observed) and at least one entry was still missing when the final request started",
 		Assumptions: []string{"cancellation granularity is the hook points plus the block fetch", "the final request's blocks are fetchable (links up, no fault)"},
 		Cases:       c11Cases,
@@ -65,6 +66,14 @@ func c11Cases(tier string, seed int64) []fw.Case {
 			}
 		}
 	}
+	// long sequences of aborted requests (a resource leaked per aborted item only shows after many of them)
+	many := []string{"mid-fetch", "fetch-error", "repl.after-fetch", "repl.before-slot"}
+	if tier == "thorough" {
+		many = append(many, "repl.after-dequeue", "repl.before-fetch", "repl.before-done", "deadline", "pre-cancelled")
+	}
+	for _, pt := range many {
+		add(map[string]interface{}{"point": pt, "point2": pt, "len": 6, "k": 1, "aborts": 40, "newer": true, "type": storeTypes[idx%3]})
+	}
 	// sampled pairs / triples, sequential and overlapping
 	extra := 12
 	if tier == "thorough" {
@@ -91,6 +100,7 @@ type c11Ctl struct {
 	arrivals map[string]int
 	reached  int
 	current  int
+	items    map[string]bool // hashes the replicator is fetching as queue items (not the fetcher's look-ahead)
 	held     []chan struct{} // held fetches
 	holdAll  bool
 	fetchN   int
@@ -98,10 +108,11 @@ type c11Ctl struct {
 }
 
 type c11Plan struct {
-	point string
-	k     int
-	seen  int
-	done  bool
+	point   string
+	k       int
+	seen    int
+	done    bool
+	failCid string // fetch-error: this block stays unfetchable for the rest of the request
 }
 
 func (ctl *c11Ctl) reqOf(args []interface{}) int {
@@ -116,8 +127,27 @@ func (ctl *c11Ctl) reqOf(args []interface{}) int {
 }
 
 func (ctl *c11Ctl) point(name string, args []interface{}) {
+	if os.Getenv("VERIF_VERBOSE") != "" {
+		h := ""
+		for _, a := range args {
+			if c, ok := a.(cid.Cid); ok {
+				h = short(c.String())
+			}
+			if e, ok := a.(error); ok && e != nil {
+				h += " err=" + e.Error()
+			}
+		}
+		fmt.Fprintf(os.Stderr, "point %s %s (request %d)\n", name, h, ctl.reqOf(args))
+	}
 	ctl.mu.Lock()
 	ctl.arrivals[name]++
+	if name == "repl.before-fetch" {
+		for _, a := range args {
+			if c, ok := a.(cid.Cid); ok {
+				ctl.items[c.String()] = true
+			}
+		}
+	}
 	id := ctl.reqOf(args)
 	if id < 0 {
 		id = ctl.current
@@ -152,7 +182,12 @@ func (ctl *c11Ctl) gate(ctx context.Context, to, from *sim.Peer, c cid.Cid) erro
 	var cancel context.CancelFunc
 	var fail bool
 	var hold chan struct{}
-	if pl != nil && !pl.done {
+	if pl != nil && pl.failCid == c.String() {
+		fail = true
+	}
+	if pl != nil && !pl.done && ctl.items[c.String()] {
+		// only the fetch of a queue item's own block counts: the fetcher's look-ahead
+		// fetches fail silently and do not abort anything
 		switch pl.point {
 		case "mid-fetch":
 			pl.seen++
@@ -169,6 +204,7 @@ func (ctl *c11Ctl) gate(ctx context.Context, to, from *sim.Peer, c cid.Cid) erro
 				pl.done = true
 				ctl.reached++
 				fail = true
+				pl.failCid = c.String()
 			}
 		}
 	}
@@ -178,6 +214,9 @@ func (ctl *c11Ctl) gate(ctx context.Context, to, from *sim.Peer, c cid.Cid) erro
 	}
 	ctl.mu.Unlock()
 	if fail {
+		if os.Getenv("VERIF_VERBOSE") != "" {
+			fmt.Fprintf(os.Stderr, "gate: injected failure for %s (request %d)\n", short(c.String()), id)
+		}
 		return errors.New("sim: injected fetch failure")
 	}
 	if cancel != nil {
@@ -231,7 +270,7 @@ func c11Run(c fw.Case) fw.Verdict {
 	e.W.Settle()
 	e.W.DropAll() // R learns heads only through the requests below
 
-	ctl := &c11Ctl{cancels: map[int]context.CancelFunc{}, plans: map[int]*c11Plan{}, arrivals: map[string]int{}, target: R}
+	ctl := &c11Ctl{cancels: map[int]context.CancelFunc{}, plans: map[int]*c11Plan{}, arrivals: map[string]int{}, items: map[string]bool{}, target: R}
 	for _, p := range []string{"repl.before-slot", "repl.after-dequeue", "repl.before-fetch", "repl.after-fetch", "repl.before-done", "merge.after-join"} {
 		e.H.SetPoint(p, ctl.point)
 	}
@@ -296,13 +335,14 @@ func c11Run(c fw.Case) fw.Verdict {
 			ctl.releaseAll()
 		}
 		if !overlap {
-			wg.Add(1)
-			func() {
-				defer wg.Done()
-				e.W.WaitIdle(sim.IdleOpts{Watchdog: 20 * time.Second})
-			}()
+			// the aborted request is over when no hooked work is pending; the replicator's own
+			// bookkeeping is not consulted here (it is what a leak would corrupt)
+			settled := e.W.WaitIdle(sim.IdleOpts{Watchdog: 5 * time.Second, IgnoreReplicators: true})
 			ctl.releaseAll()
 			cancel() // an aborted request that never reached its point ends here (then it is simply a completed request)
+			if !settled {
+				break // the replicator no longer comes to rest: go straight to the final request, which decides
+			}
 		} else {
 			defer cancel()
 		}
@@ -378,6 +418,10 @@ func c11Run(c fw.Case) fw.Verdict {
 	v.Count("cancellations_triggered", int64(reached))
 	v.Count("entries_missing_before_final_request", int64(missingBefore))
 	v.Sig = fw.HashSig(n, strings.Join(points, "+"), c.Int("k", 1), overlap, c.Bool("newer"), typ)
+	pointsDesc := strings.Join(points, "+")
+	if len(points) > 3 {
+		pointsDesc = fmt.Sprintf("%s x%d", points[0], len(points))
+	}
 	v.NonTrivial = reached > 0 && missingBefore > 0
 	if !ok {
 		if !e.W.WaitIdle(sim.IdleOpts{Stable: confirmWindow(), Watchdog: 60 * time.Second}) {
@@ -388,7 +432,7 @@ func c11Run(c fw.Case) fw.Verdict {
 			}
 			if ok, miss = held(); !ok {
 				return fw.Verdict{Status: fw.Violated, Key: fmt.Sprintf("cancel-point=%s/outcome=never-at-rest", points[0]), NonTrivial: true, Sig: v.Sig, Counters: v.Counters,
-					What: fmt.Sprintf("after %d aborted request(s) (%s, k=%d) the final uncancelled Sync never completes: %d of %d entries missing, replicator state %s, pending %v", aborts, strings.Join(points, "+"), c.Int("k", 1), miss, len(want), st, e.H.Detail())}
+					What: fmt.Sprintf("after %d aborted request(s) (%s, k=%d) the final uncancelled Sync never completes: %d of %d entries missing, replicator state %s, pending %v", aborts, pointsDesc, c.Int("k", 1), miss, len(want), st, e.H.Detail())}
 			}
 		}
 		if ok, miss = held(); !ok {
@@ -398,7 +442,7 @@ func c11Run(c fw.Case) fw.Verdict {
 				outcome = "skipped"
 			}
 			return fw.Verdict{Status: fw.Violated, Key: fmt.Sprintf("cancel-point=%s/outcome=%s", points[0], outcome), NonTrivial: true, Sig: v.Sig, Counters: v.Counters,
-				What: fmt.Sprintf("after %d aborted request(s) (%s, k=%d) and a final uncancelled Sync, at rest the replica holds %d entries and misses %d of the %d reachable ones", aborts, strings.Join(points, "+"), c.Int("k", 1), have, miss, len(want))}
+				What: fmt.Sprintf("after %d aborted request(s) (%s, k=%d) and a final uncancelled Sync, at rest the replica holds %d entries and misses %d of the %d reachable ones", aborts, pointsDesc, c.Int("k", 1), have, miss, len(want))}
 		}
 	}
 	// view oracle on the result
